@@ -460,6 +460,10 @@ def oracle_buffer(m, spec, res, T):
                             % (res.streams_restored,)))
     if not buffered or res.raised:
         return viols
+    if any(ev[1] == 'fault' and ev[2] == 'replace_stdout' for ev in res.trace):
+        # a test pointed a std stream at an object of its own: what it wrote there afterwards is
+        # its own business - only the identity of the streams between tests is judged
+        return viols
     text = res.text
     # regions: header -> owner sid
     heads = [(mm.start(), mm.group(1)) for mm in HEADER_RE.finditer(text)]
